@@ -1,6 +1,7 @@
 """C15 - rotation-cycle bookkeeping is exact and its optimisation never worsens."""
 from .. import prov
 from ..rulelib import *
+from ..rulelib import _closure_site
 from . import common, objective
 from .C06 import (guarded_arith, unlimited_search, strict_improver, PLS_WITH, LS_WITH, PMIN_IMPROVE, MIN_IMPROVE, UNWRAP_OR)
 
@@ -59,12 +60,64 @@ def counter_plain_sum(ctx, sites):
         o.loc = st.instr.line()
         cmax = has_method(cnt["atoms"], "core::cmp::Ord::max")
         vmax = has_method(vio["atoms"], "core::cmp::Ord::max")
+        outer = direct_def_instr(fdx, ops["total_maintenance_violation"])
+        if outer is not None and outer.kind == "call" and (outer.decl or outer.callee or "").endswith("::max"):
+            ctx.bad(o, "the total violation is clamped once at the end (`(..).max(0)`) instead of summing the positive parts of each cycle: a cycle "
+                       "with slack (negative counter) hides another cycle's violation", loc=st.instr.line())
+            continue
         ctx.decide(o, vmax and not cmax and field(TRANSITION, "total_maintenance_counter") in cnt["atoms"]
                    and field(TRANSITION, "total_maintenance_violation") in vio["atoms"],
                    "violation uses max(0), counter does not",
                    ("the counter total is clamped with max(..): cycles with slack (negative counter) make every neighbour look better, the "
                     "transition search never terminates" if cmax else "the violation total is not built from positive parts / old totals"),
                    loc=st.instr.line())
+
+
+def three_opt_reconnection(ctx, rid):
+    """3-opt on a cycle removes the transfers (i,i+1), (j,j+1), (k,k+1) and adds (i,j+1), (j,k+1), (k,i+1): decided on
+    which of the parameters i, j, k each depot operand of the six distance look-ups derives from"""
+    key = TCYCLE + "::three_opt"
+    o, fd = ctx.require_fn("%s.three-opt-reconnection" % rid, "T12", key,
+                           "3-opt subtracts the depot transfers after i, j, k and adds the transfers i->j+1, j->k+1, k->i+1")
+    if fd is None:
+        return
+    dh = calls_to(fd, N("dead_head_distance_between"))
+    if len(dh) != 6:
+        ctx.undecided(o, "expected six dead_head_distance_between calls, found %d" % len(dh))
+        return
+
+    def tag(c, ai):
+        at = fd.slice_operand_pure(c, c.args[ai])["atoms"]
+        ps = sorted(int(a[6:]) for a in at if a.startswith("param:") and a[6:] in ("2", "3", "4"))
+        return ps[0] if len(ps) == 1 else None
+    removed, added, unknown = set(), set(), []
+    for ins in fd.body.instrs():
+        if ins.kind != "assign" or ins.rv_kind() != "binop" or not ins.rv.get("aty", "").startswith("i64"):
+            continue
+        op = ins.rv["op"]
+        if not (op.startswith("Add") or op.startswith("Sub")):
+            continue
+        sl = fd.slice_operand_pure(ins, ins.ops[1])
+        mine = [c for c in dh if any(d.instr is c for d in sl["defs"])]
+        if len(mine) != 1:
+            continue
+        c = mine[0]
+        pair = (tag(c, 1), tag(c, 2))
+        if None in pair:
+            unknown.append(c)
+        elif op.startswith("Sub"):
+            removed.add(pair)
+        else:
+            added.add(pair)
+    want_removed, want_added = {(2, 2), (3, 3), (4, 4)}, {(2, 3), (3, 4), (4, 2)}
+    names = {2: "i", 3: "j", 4: "k"}
+    fmt = lambda s: sorted("%s->%s+1" % (names[a], names[b]) for a, b in s)
+    if unknown:
+        ctx.undecided(o, "depot operands not attributable to i/j/k at %s" % unknown[0].line())
+    else:
+        ctx.decide(o, removed == want_removed and added == want_added, "removed %s, added %s" % (fmt(removed), fmt(added)),
+                   "3-opt removes %s and adds %s; it must remove %s and add %s (the cycle's counter no longer matches its vehicle order, and the "
+                   "cycle search can oscillate forever)" % (fmt(removed), fmt(added), fmt(want_removed), fmt(want_added)), loc=dh[0].line())
 
 
 def neighbour_wiring(ctx, rid):
@@ -86,6 +139,11 @@ def neighbour_wiring(ctx, rid):
     e1 = fd.slice_operand_pure(tup[0], tup[0].ops[1])
     ok0 = call(T("end_depot")) in e0["atoms"] and names["predecessor"] in e0["locals"] and names["successor"] not in e0["locals"]
     ok1 = call(T("start_depot")) in e1["atoms"] and names["successor"] in e1["locals"] and names["predecessor"] not in e1["locals"]
+    both_maps = all("param:3" in e["atoms"] and "param:4" in e["atoms"] for e in (e0, e1))
+    if ok0 and ok1 and not both_maps:
+        ctx.bad(o, "a neighbour's depot is not looked up in the tours already updated in this batch first and the old tours second: a neighbour "
+                   "updated earlier in the same batch is read with its stale depot", loc=tup[0].line())
+        return
     ctx.decide(o, ok0 and ok1, "(end_depot(tour of predecessor), start_depot(tour of successor))",
                "the %s is looked up with the other neighbour's key: during batched updates the depot-to-depot distance of the cycle is "
                "computed from the wrong tour" % ("successor's start depot" if ok0 else "predecessor's end depot"), loc=tup[0].line())
@@ -126,10 +184,25 @@ def rules(ctx):
                     sl = fdx.slice(seed_defs=[w], control=False)
                     if "param:3" in sl["atoms"]:
                         ok = True
+        # the retain predicate keeps the entries that differ from the target
+        cmp_ops = set()
+        for k2 in ctx.prog.family(TR("add_vehicle_at_the_end")):
+            f2 = ctx.fd(k2)
+            if not f2.body.is_closure:
+                continue
+            _, agg, users = _closure_site(ctx.an, k2)
+            if any((u.callee or "").endswith("::retain") for u in users):
+                for i2 in f2.body.instrs():
+                    if i2.kind == "assign" and i2.rv_kind() == "binop" and i2.rv["op"] in ("Eq", "Ne"):
+                        cmp_ops.add(i2.rv["op"])
+        if ok and cmp_ops == {"Eq"}:
+            ctx.bad(o, "retain keeps only the entry of the target cycle (`==`) instead of dropping it (`!=`)")
+            return
         ctx.decide(o, ok, "the write to empty_cycles depends on new_cycle_idx",
                    "the entry removed from empty_cycles does not depend on the target cycle index (e.g. pop()): a still-empty cycle is "
                    "forgotten and an occupied one stays listed as reusable")
     neighbour_wiring(ctx, "R3")
+    three_opt_reconnection(ctx, "R3")
     inf_conversions(ctx, "R4")
     # R5: optimisation never worsens
     objective.level_order(ctx, "R5.transition-objective", TLS + "::transition_objective",
